@@ -431,6 +431,44 @@ def facade_facts(api_t) -> str:
             "\nend GV.Generated.Facade\n")
 
 
+def _simple_stmts(fn) -> list[str]:
+    out = []
+    for n in ast.walk(fn):
+        if isinstance(n, (ast.Assign, ast.AugAssign)):
+            out.append(ast.unparse(n))
+        elif isinstance(n, ast.Expr) and not isinstance(n.value, ast.Constant):
+            out.append(ast.unparse(n))
+    return out
+
+
+def loop_shape_facts(numba_t) -> list[tuple[str, str, str]]:
+    """syntactic shape of the two accumulation loops the hand-written models `groupFold` / `cumGo` stand for:
+    the reducer is applied to the row's own group slot only, rows are visited in array / indexer order, counts start at 0;
+    the cumulative loop reads the group's previous output position and records the current one"""
+    facts = {}
+    red = find_func(numba_t, "_group_by_reduce")
+    ss = _simple_stmts(red)
+    upd = "target[key], count[key] = reduce_func(target[key], values[i], count[key])"
+    calls = [x for x in ss if "reduce_func(" in x]
+    facts["reduceUpdatesOwnSlot"] = bool(calls) and all(x == upd for x in calls)
+    facts["reduceKeyFromRow"] = ss.count("key = group_key[i]") == len(calls)
+    loops = [n for n in ast.walk(red) if isinstance(n, ast.For)]
+    facts["reduceRowsInOrder"] = sorted(ast.unparse(l.iter) for l in loops) == ["indexer", "range(len(group_key))"] and \
+        all(ast.unparse(l.target) == "i" for l in loops)
+    facts["reduceCountStartsAtZero"] = any(x.startswith("count = np.full(len(target), 0") for x in ss)
+    cum = find_func(numba_t, "_cumulative_reduce")
+    cs = _simple_stmts(cum)
+    facts["cumUpdatesFromLastSeen"] = "target[i], group_count[key] = reduce_func(target[last_seen], val, group_count[key])" in cs and \
+        sum("reduce_func(" in x for x in cs) == 1
+    facts["cumLastSeenTracked"] = "last_seen = group_last_seen[key]" in cs and "group_last_seen[key] = i" in cs and \
+        any(x.startswith("group_last_seen = np.full(ngroups, -1") for x in cs)
+    facts["cumMaskedPassThrough"] = "target[i] = target[last_seen]" in cs
+    facts["cumRowCounter"] = "i += 1" in cs and "i = -1" in cs
+    cloops = [ast.unparse(l.iter) for l in ast.walk(cum) if isinstance(l, ast.For)]
+    facts["cumRowsInOrder"] = sorted(cloops) == ["arr", "values"]
+    return [(k, "Bool", lean_bool(v)) for k, v in facts.items()]
+
+
 def generate() -> dict[str, str]:
     numba_src = (REPO / "groupby_lib/groupby/numba.py").read_text()
     util_src = (REPO / "groupby_lib/util.py").read_text()
@@ -486,6 +524,7 @@ def generate() -> dict[str, str]:
         ("guardNearbyMembers", find_func(numba_t, "group_nearby_members"), "key"),
     ]:
         consts.append((nm, "Bool", lean_bool(has_neg_key_guard(fn, kv))))
+    consts.extend(loop_shape_facts(numba_t))
     consts.append(("chunkedFactorizeThreshold", "Nat", str(module_int_constant(core_t, "THRESHOLD_FOR_CHUNKED_FACTORIZE"))))
     api_t = ast.parse((REPO / "groupby_lib/groupby/api.py").read_text())
     files["Facade.lean"] = head + facade_facts(api_t)
